@@ -1,8 +1,20 @@
 pub mod c01;
+pub mod c02;
+pub mod c08;
+pub mod c13;
+pub mod c14;
+pub mod c17;
 pub mod common;
 
 use crate::Prop;
 
 pub fn all() -> Vec<Box<dyn Prop>> {
-    vec![Box::new(c01::C01)]
+    vec![
+        Box::new(c01::C01),
+        Box::new(c02::C02),
+        Box::new(c08::C08),
+        Box::new(c13::C13),
+        Box::new(c14::C14),
+        Box::new(c17::C17),
+    ]
 }
